@@ -41,7 +41,9 @@ def model_case(draw, model):
     return dict(system=sysd, rows=rows, W=W, entry=draw(st.sampled_from(["function", "estimator"])),
                 accuracy=draw(st.sampled_from(["default", "high"])),
                 # how many targets are stacked into one problem: a performance setting only (Poisson / gaussian)
-                batch_size=(draw(st.sampled_from([None, None, 2, 3, "full"])) if model == "poisson" else None),
+                # the excitation model accepts the option too and solves every target on its own whatever it says
+                # (drawn for it after seeded change S-C07-11)
+                batch_size=draw(st.sampled_from([None, None, 2, 3, "full"])),
                 int_targets=(draw(st.integers(0, 4)) == 0))
 
 
@@ -209,8 +211,10 @@ def excitation_opt(sv, b, iters=40):
 def body_excitation(case):
     sv = Sys(case["system"])
     B = _targets(case)
-    with calling("excitation fit"):
-        X, Bp = run_model(sv, _arg(B, case), None, "excitation", case["entry"])
+    bs = case.get("batch_size")
+    bs = len(case["rows"]) if bs == "full" else bs          # the excitation function documents an integer
+    with calling(f"excitation fit (batch_size={bs})"):
+        X, Bp = run_model(sv, _arg(B, case), None, "excitation", case["entry"], **({} if bs is None else dict(batch_size=bs)))
     # only the default solver (SCS bisection): the statement of C07 does not promise a solver pass-through for this model, and
     # cvxpy's bisection with CLARABEL aborts with "Max iters hit during bisection" on well-posed instances (see DESIGN.md section 8)
     check(X.shape == (B.shape[0], sv.n) and Bp.shape == B.shape, "excitation:shape", f"X {X.shape} B_pred {Bp.shape}")
